@@ -142,12 +142,6 @@ static void runSessionClass(const Scenario& sc, vf::Result& res) {
     long rel = 0;
     for (auto& g : m.gos) if (g.needsRelease) rel++;
     res.counters["gos_needing_release"] = rel;
-    if (sc.knobInt("dump", 0)) {
-        std::string all;
-        for (auto& s : h.sent) all += "> [" + std::to_string(s.seqSent) + "] " + s.text + "\n";
-        for (auto& l : h.out) all += "< [" + std::to_string(l.seq) + " t" + std::to_string(l.tid) + "] " + l.text + "\n";
-        fprintf(stderr, "%s", all.c_str());
-    }
 }
 
 // ------------------------------------------------------------------------------------------
@@ -211,7 +205,7 @@ static void genC10(uint64_t seed, int tier, Scenario& sc) {
     bool faults = rk.chance(0.5);
     sess::genSimKnobs(rk, sc, faults);
     // C10 favours PCT and uniform scheduling
-    if (rk.chance(0.5)) { sc.set("strategy", vsim::ST_PCT); sc.set("pct_depth", rk.range(1, 5)); sc.set("pct_horizon", rk.logRange(100, 30000)); }
+    if (rk.chance(0.5)) { sc.set("strategy", vsim::ST_PCT); sc.set("pct_depth", rk.range(1, 5)); sc.set("pct_horizon", rk.logRange(100, 30000)); sc.set("helper_tick_yield", rk.chance(0.5) ? 1 : 4); }
     long long cost = pickNodeCost(rk);
     sc.set("node_cost_ns", cost);
     sc.setS("net", "material");
@@ -335,6 +329,6 @@ static void genC03(uint64_t seed, int tier, Scenario& sc) {
     pushSend(sc, "quit");
 }
 
-static vf::ClassRegistrar regC05({"C05", "C05", genC05, runSessionClass});
-static vf::ClassRegistrar regC10({"C10", "C10", genC10, runSessionClass});
-static vf::ClassRegistrar regC03({"C03", "C03", genC03, runSessionClass});
+static vf::ClassRegistrar regC05({"C05", "C05", "session", genC05, runSessionClass});
+static vf::ClassRegistrar regC10({"C10", "C10", "session", genC10, runSessionClass});
+static vf::ClassRegistrar regC03({"C03", "C03", "session", genC03, runSessionClass});
